@@ -74,14 +74,15 @@ type simCluster struct {
 	committed map[uint64]string    // index -> entry (term/type/data)
 	nextPay   int
 	// abstract shadow (vh raft abs): static membership, no snapshots; every event is reported to coq/Abs/Exec.v
-	preImp map[uint64]bool // importantIDs of the event's node before the event
-	evImp  map[uint64]bool // nodes with an action in the configuration the event submits
-	static bool            // no membership changes
-	nosnap bool            // no snapshots
-	calm   bool            // elections and crashes are rare while a leader exists
-	abs    *absShadow
-	hint   absHint
-	hintp  *absHint // filled in by the event itself (a request written by a replication)
+	phantom bool            // only node 1 exists; the harness answers for the other members (vh raft leader1)
+	preImp  map[uint64]bool // importantIDs of the event's node before the event
+	evImp   map[uint64]bool // nodes with an action in the configuration the event submits
+	static  bool            // no membership changes
+	nosnap  bool            // no snapshots
+	calm    bool            // elections and crashes are rare while a leader exists
+	abs     *absShadow
+	hint    absHint
+	hintp   *absHint // filled in by the event itself (a request written by a replication)
 }
 
 func (c *simCluster) note(format string, a ...interface{}) {
@@ -452,7 +453,13 @@ func (c *simCluster) run(n *simNode, desc, ev string, fn func() (response, []str
 	if newremovelte == preRemoveLTE || ev != "ESnapTaken" {
 		newremovelte = 0
 	}
-	c.emit(n, desc, ev, pre, c.options(n, newprev, newremovelte), o)
+	if n.skipCase && o.panicv == nil {
+		n.skipCase = false
+		c.w.dist["skipped/shutdown-with-snapshot-in-flight"]++
+		c.note("n%d %s -> (not compared: shutdown completed a snapshot in flight)", n.r.nid, desc)
+	} else {
+		c.emit(n, desc, ev, pre, c.options(n, newprev, newremovelte), o)
+	}
 	if c.abs != nil && o.panicv == nil {
 		if hintp != nil && hintp.kind != "" {
 			hint = *hintp
@@ -615,7 +622,7 @@ func (c *simCluster) monitors(n *simNode) {
 		}
 	}
 	// C06: what the leader reports committed is flushed on a majority of the voters of its configuration
-	if r.state == Leader && r.commitIndex >= n.l.startIndex {
+	if r.state == Leader && r.commitIndex >= n.l.startIndex && !c.phantom {
 		cfg := r.configs.Latest
 		if !r.configs.IsCommitted() && r.configs.Latest.Index > r.commitIndex {
 			cfg = r.configs.Committed
@@ -1331,7 +1338,11 @@ func (c *simCluster) leaderStep(n *simNode) {
 	case x < 86:
 		target := uint64(0)
 		if c.rnd.Intn(2) == 0 {
-			target = c.ids[c.rnd.Intn(len(c.ids))]
+			pool := c.ids
+			if c.phantom {
+				pool = sortedIDs(n.r.configs.Latest.Nodes)
+			}
+			target = pool[c.rnd.Intn(len(pool))]
 		}
 		t := TransferLeadership(target, time.Hour).(transferLdr)
 		st := c.newTask(id, t, "transfer")
@@ -1400,11 +1411,21 @@ func (c *simCluster) changeConfig(n *simNode) {
 	switch c.rnd.Intn(8) {
 	case 0: // add a non-voter to be promoted
 		nid := uint64(len(c.ids) + 1)
+		if c.phantom {
+			nid = 1
+			for id := range cur.Nodes {
+				if id >= nid {
+					nid = id + 1
+				}
+			}
+		}
 		if nid > 5 {
 			return
 		}
-		if err := c.addNode(nid, nil); err != nil {
-			return
+		if !c.phantom {
+			if err := c.addNode(nid, nil); err != nil {
+				return
+			}
 		}
 		nc.Nodes[nid] = Node{ID: nid, Addr: fmt.Sprintf("M%d:8888", nid), Action: Promote}
 	case 1:
